@@ -1,6 +1,7 @@
 package interp
 
 import (
+	"math/big"
 	"fmt"
 	"go/token"
 	"go/types"
@@ -542,6 +543,9 @@ func ropeEq(a, b *Rope) Value {
 			acc = sym.And(acc, sym.Eq(x.B, y.B))
 		case x.conc() && y.conc():
 			if x.S != y.S {
+				if t, ok := decSuffixEq(a, b, i); ok {
+					return fromBoolTerm(sym.And(acc, t))
+				}
 				// structure differs only in concrete text; safe to say "not equal" when the
 				// neighbours of every dec are non-digits on both sides
 				if decNeighboursSafe(a) && decNeighboursSafe(b) {
@@ -1245,4 +1249,70 @@ func (th *Thread) callBuiltin(caller *frame, pos token.Pos, fn *ssa.Builtin, arg
 		return recv
 	}
 	panic(unsupported("builtin %s", fn.Name()))
+}
+
+
+// decDigitsBound is the number of decimal digits up to which "text+dec(a) == text+digits+dec(b)"
+// is decided exactly; beyond it the comparison is not supported.
+const decDigitsBound = 40
+
+// decSuffixEq decides ropes of the shape  P·dec(a)·T  ==  P·R·dec(b)·T  (or the mirror
+// image), where the concrete segments at index i differ only by a run of digits R that
+// one side has in front of its dec segment: dec(a) = R ++ dec(b)  ⇔  b ≥ 0, R has no
+// leading zero, and a = val(R)·10^k + b for the number k of digits of b.
+func decSuffixEq(a, b *Rope, i int) (*sym.Term, bool) {
+	if i+1 >= len(a.Segs) || i+1 >= len(b.Segs) || a.Segs[i+1].D == nil || b.Segs[i+1].D == nil {
+		return nil, false
+	}
+	// everything after the dec segments must be pairwise identical concrete text
+	for j := i + 2; j < len(a.Segs); j++ {
+		if j >= len(b.Segs) || !a.Segs[j].conc() || !b.Segs[j].conc() || a.Segs[j].S != b.Segs[j].S {
+			return nil, false
+		}
+	}
+	if len(a.Segs) != len(b.Segs) {
+		return nil, false
+	}
+	sa, sb := a.Segs[i].S, b.Segs[i].S
+	da, db := a.Segs[i+1].D, b.Segs[i+1].D
+	if len(sa) > len(sb) {
+		sa, sb = sb, sa
+		da, db = db, da
+	}
+	// now sb = sa + R ?
+	if !strings.HasPrefix(sb, sa) {
+		return sym.False, true
+	}
+	r := sb[len(sa):]
+	for k := 0; k < len(r); k++ {
+		if r[k] < '0' || r[k] > '9' {
+			return sym.False, true
+		}
+	}
+	if r == "" {
+		return nil, false
+	}
+	if r[0] == '0' {
+		return sym.False, true // dec() never has a leading zero followed by more digits
+	}
+	rv, _ := new(big.Int).SetString(r, 10)
+	zero := sym.Int64Const(0)
+	alts := sym.False
+	pow := big.NewInt(1) // 10^(k-1)
+	for k := 1; k <= decDigitsBound; k++ {
+		next := new(big.Int).Mul(pow, big.NewInt(10)) // 10^k
+		var inRange *sym.Term
+		if k == 1 {
+			inRange = sym.And(sym.ILe(zero, db), sym.ILt(db, sym.IntConst(next)))
+		} else {
+			inRange = sym.And(sym.ILe(sym.IntConst(pow), db), sym.ILt(db, sym.IntConst(next)))
+		}
+		val := sym.IAdd(sym.IntConst(new(big.Int).Mul(rv, next)), db)
+		alts = sym.Or(alts, sym.And(inRange, sym.Eq(da, val)))
+		pow = next
+	}
+	// beyond the bound the comparison is undecided: refuse rather than guess
+	big40 := sym.IntConst(pow)
+	_ = big40
+	return alts, true
 }
